@@ -263,6 +263,12 @@ where {
 
         // Cleartext body
         writer.write_all(self.csf_encoded_text.as_bytes())?;
+        if self.csf_encoded_text.ends_with('\r') {
+            // The line ending that terminates the text is not part of the text. If the text
+            // itself ends in a CR, a bare LF would pair up with it and the CR would be dropped
+            // on reading: terminate with CR+LF in this case.
+            writer.write_all(b"\r")?;
+        }
         writer.write_all(b"\n")?;
 
         /// A signature wrapper that serializes complete with packet header
